@@ -47,6 +47,14 @@ pub enum IdEdit {
     /// every transaction removed, or only the first k kept (header untouched: the header-only form
     /// of the block, and truncations of its transaction list)
     Truncate(u16),
+    /// a signature replaced by its twin (r, n - s), which anyone can compute without a key: of a
+    /// transaction (which = even) or of the last routing hop of a transaction with a path (odd).
+    /// Transaction and hop signatures are outside the transaction hash, so only the rule that a
+    /// valid signature has one encoding keeps the signed block from admitting a second transaction set
+    SigTwin(u16, u8),
+    /// one bit flipped in the signature field of a transaction that the block producer makes (fee,
+    /// rebroadcast, issuance): nothing verifies that field
+    ProducerTxSig(u16, u8),
     /// control: no edit at all (must be accepted)
     Identity,
 }
@@ -115,6 +123,27 @@ fn edit_tx_list(b: &mut Block, sel: u16) {
         }
         _ => b.transactions.push(carrier_tx(&key(3), b.timestamp + 1)),
     }
+}
+
+/// (r, s) -> (r, n - s) for the group order n of secp256k1 (compact 64-byte signature).
+fn sig_twin(sig: &[u8; 64]) -> [u8; 64] {
+    const N: [u8; 32] = [
+        0xff, 0xff, 0xff, 0xff, 0xff, 0xff, 0xff, 0xff, 0xff, 0xff, 0xff, 0xff, 0xff, 0xff, 0xff, 0xfe, 0xba, 0xae, 0xdc, 0xe6, 0xaf, 0x48, 0xa0, 0x3b, 0xbf, 0xd2, 0x5e, 0x8c, 0xd0, 0x36,
+        0x41, 0x41,
+    ];
+    let mut out = *sig;
+    let mut borrow = 0i16;
+    for i in (0..32).rev() {
+        let d = N[i] as i16 - sig[32 + i] as i16 - borrow;
+        if d < 0 {
+            out[32 + i] = (d + 256) as u8;
+            borrow = 1;
+        } else {
+            out[32 + i] = d as u8;
+            borrow = 0;
+        }
+    }
+    out
 }
 
 /// Applies the edit. Returns (edited block, resigned_by_new_creator, asserts_rejection).
@@ -207,6 +236,35 @@ fn apply(orig: &Block, e: &IdEdit) -> Option<(Block, bool, bool)> {
             }
             let i = with_path[pick(*s, with_path.len())];
             b.transactions[i].path.pop();
+        }
+        IdEdit::SigTwin(s, which) => {
+            if which % 2 == 0 {
+                use saito_core::core::consensus::transaction::TransactionType as T;
+                // transactions whose signature consensus verifies (user-signed types)
+                let signed: Vec<usize> = b.transactions.iter().enumerate().filter(|(_, t)| t.signature != [0; 64] && !matches!(t.transaction_type, T::Fee | T::ATR | T::Issuance | T::SPV)).map(|(i, _)| i).collect();
+                if signed.is_empty() {
+                    return None;
+                }
+                let i = signed[pick(*s, signed.len())];
+                b.transactions[i].signature = sig_twin(&b.transactions[i].signature);
+            } else {
+                let with_path: Vec<usize> = b.transactions.iter().enumerate().filter(|(_, t)| !t.path.is_empty()).map(|(i, _)| i).collect();
+                if with_path.is_empty() {
+                    return None;
+                }
+                let i = with_path[pick(*s, with_path.len())];
+                let h = b.transactions[i].path.last_mut()?;
+                h.sig = sig_twin(&h.sig);
+            }
+        }
+        IdEdit::ProducerTxSig(s, bit) => {
+            use saito_core::core::consensus::transaction::TransactionType as T;
+            let made: Vec<usize> = b.transactions.iter().enumerate().filter(|(_, t)| matches!(t.transaction_type, T::Fee | T::ATR | T::Issuance)).map(|(i, _)| i).collect();
+            if made.is_empty() {
+                return None;
+            }
+            let i = made[pick(*s, made.len())];
+            b.transactions[i].signature[*bit as usize % 64] ^= 1 << (*bit % 8);
         }
         IdEdit::MutateTxReplacements(s, r) => {
             if n == 0 {
@@ -373,7 +431,12 @@ fn judge_edits(b: &Block, edits: &[IdEdit], state: &str, make_replica: &dyn Fn()
         // the two lists carry the same transaction hashes in the same order, yet differ: the
         // difference sits in fields the transaction hash does not cover
         let same_tx_hashes = eb.transactions.len() == b.transactions.len() && eb.transactions.iter().zip(&b.transactions).all(|(x, y)| x.hash_for_signature == y.hash_for_signature && x.signature == y.signature);
-        if accepted && same_hash && !same_txs && same_tx_hashes {
+        if accepted && same_hash && !same_txs && matches!(e, IdEdit::ProducerTxSig(..)) {
+            v.push((
+                "C06|same_hash_different_txs|producer_made_tx_signature_field".to_string(),
+                format!("a block with hash {} in which the signature field of a fee / rebroadcast / issuance transaction was changed after signing was accepted by the {} replica (edit {:?})", hx(&b.hash), state, e),
+            ));
+        } else if accepted && same_hash && !same_txs && same_tx_hashes {
             v.push((
                 "C06|same_hash_different_txs|differs_only_outside_tx_hash".to_string(),
                 format!("a block with hash {} whose transactions spend different outputs than the signed ones (same transaction hashes and signatures) was accepted by the {} replica (edit {:?})", hx(&b.hash), state, e),
@@ -612,6 +675,8 @@ pub fn arb_edit() -> impl Strategy<Value = IdEdit> {
         (any::<u16>(), any::<u8>()).prop_map(|(s, r)| IdEdit::MutateTxReplacements(s, r)),
         any::<u16>().prop_map(IdEdit::RepointInput),
         any::<u16>().prop_map(IdEdit::DropLastHop),
+        (any::<u16>(), any::<u8>()).prop_map(|(s, w)| IdEdit::SigTwin(s, w)),
+        (any::<u16>(), any::<u8>()).prop_map(|(s, w)| IdEdit::ProducerTxSig(s, w)),
         (0u8..SIGNED_FIELDS as u8).prop_map(IdEdit::HeaderSigned),
         (0u8..UNSIGNED_FIELDS as u8).prop_map(IdEdit::HeaderUnsigned),
         any::<u16>().prop_map(IdEdit::MerkleOfEdited),
@@ -639,7 +704,7 @@ pub fn arb_case(max_blocks: usize) -> impl Strategy<Value = Case> {
 }
 
 pub fn run(ctx: &mut Ctx) {
-    ctx.rule = "a valid block B (usually >= 2 transactions; golden ticket, fee and rebroadcast transactions included) at the tip of a generated honest history (gp 4..100, before/after the window wraps) and 6..14 edits from {remove, duplicate, swap, add, replace a transaction; mutate a transaction's amount / payload / timestamp; change one of 14 signed header fields without re-signing; change one of 12 unsigned header fields; edit the list and set the merkle root accordingly without re-signing; zero the merkle root; flip a signature bit; change the creator with and without re-signing; insert a slip-less transaction of type SPV/Normal/ATR/Vip with txs_replacements in {0,1,2,7}; change txs_replacements; re-point an input to another output of the same owner with equal amount, slip index and type}; each edited block crosses the wire format and is offered to a replica holding the chain up to B's parent, to a node that joined mid-chain and holds only B's parent, and (the genesis block) to an empty node; plus directed histories in which the payer owns twin outputs. oracle: same hash and different transaction list => not accepted; any edit not re-signed by the stated creator (and touching transactions or signed fields) => not accepted; re-signed by another creator => different hash; the unedited round-tripped B => accepted. evaluations = edited blocks offered. non-trivial = edit changes the transaction list or a signed header field; distinct = (edit kind, tx-count bucket, state class, history bucket)".into();
+    ctx.rule = "a valid block B (usually >= 2 transactions; golden ticket, fee and rebroadcast transactions included) at the tip of a generated honest history (gp 4..100, before/after the window wraps) and 6..14 edits from {remove, duplicate, swap, add, replace a transaction; mutate a transaction's amount / payload / timestamp; change one of 14 signed header fields without re-signing; change one of 12 unsigned header fields; edit the list and set the merkle root accordingly without re-signing; zero the merkle root; flip a signature bit; replace a user transaction's or a routing hop's signature by its twin (r, n - s); flip a bit in the signature field of a producer-made (fee / rebroadcast / issuance) transaction; change the creator with and without re-signing; insert a slip-less transaction of type SPV/Normal/ATR/Vip with txs_replacements in {0,1,2,7}; change txs_replacements; re-point an input to another output of the same owner with equal amount, slip index and type}; each edited block crosses the wire format and is offered to a replica holding the chain up to B's parent, to a node that joined mid-chain and holds only B's parent, and (the genesis block) to an empty node; plus directed histories in which the payer owns twin outputs. oracle: same hash and different transaction list => not accepted; any edit not re-signed by the stated creator (and touching transactions or signed fields) => not accepted; re-signed by another creator => different hash; the unedited round-tripped B => accepted. evaluations = edited blocks offered. non-trivial = edit changes the transaction list or a signed header field; distinct = (edit kind, tx-count bucket, state class, history bucket)".into();
     // directed: the payer owns two outputs that differ only in the transaction that created them
     // (two equal issuance entries), so that an input can be re-pointed from one to the other
     for (n_blocks, payer) in [(1usize, 0u8), (3, 0), (3, 1), (5, 1)] {
